@@ -20,7 +20,20 @@ import ast
 from fractions import Fraction
 
 EQUIVARIANT = {"rint", "round", "floor", "ceil", "around", "round_"}
-BOUNDED = {"copysign", "sign", "sin", "cos", "tanh", "clip"}
+BOUNDED = {"copysign", "sign", "sin", "cos", "tanh", "clip", "fmod"}  # |fmod(x, m)| < |m|
+
+
+def has_fn(p, name):
+    """Does the function atom `name` occur in p with an argument that depends on d?"""
+    for m in p:
+        for a, _ in m:
+            if isinstance(a, tuple) and a[0] == "fn":
+                args = [_thaw(fa) for fa in a[3]]
+                if a[1] == name and any(depends_on_d(x) for x in args):
+                    return True
+                if any(has_fn(x, name) for x in args):
+                    return True
+    return False
 
 
 class Undecidable(Exception):
@@ -245,6 +258,15 @@ def show(p):
     return " + ".join(parts)
 
 
+def _floored_remainder(x, m):
+    """x % m = x - floor(x / m) * m (Python / numpy.mod: result has the sign of the divisor)."""
+    try:
+        q = mul(x, inverse(m))
+    except Undecidable:
+        return apply_fn("mod", [x, m])
+    return add(x, mul(apply_fn("floor", [q]), m), -1)
+
+
 class Translator:
     """AST -> poly, given an environment name -> poly (scalars: 'd', 'L', 'iL')."""
 
@@ -276,14 +298,14 @@ class Translator:
             if isinstance(e.op, ast.Div):
                 return mul(a, inverse(b))
             if isinstance(e.op, ast.Mod):
-                return apply_fn("mod", [a, b])
+                return _floored_remainder(a, b)
             raise Undecidable(f"operator {type(e.op).__name__}")
         if isinstance(e, ast.Call):
             name = e.func.attr if isinstance(e.func, ast.Attribute) else (e.func.id if isinstance(e.func, ast.Name) else None)
             if name is None:
                 raise Undecidable("call of a computed function")
             if name in ("mod", "remainder") and len(e.args) == 2:
-                return apply_fn("mod", [self.tr(e.args[0]), self.tr(e.args[1])])
+                return _floored_remainder(self.tr(e.args[0]), self.tr(e.args[1]))
             if name in ("array", "asarray", "float", "float64") and e.args:
                 return self.tr(e.args[0])
             if name in ("copy", "astype") and isinstance(e.func, ast.Attribute):
